@@ -26,6 +26,14 @@ pub fn read_close(p: usize) {
         sim::ev_read_close(p);
     }
 }
+/// Right after the writer switched the generation in `write_barrier` (address of the generation
+/// counter): readers that sample the generation from now on use the other slot.
+#[inline]
+pub fn gen_flip(gen_addr: usize) {
+    if sim::on() {
+        sim::ev_gen_flip(gen_addr);
+    }
+}
 #[inline]
 pub fn cell_access(p: usize, is_write: bool) {
     if sim::on() {
